@@ -74,11 +74,13 @@ def run_case(case, ctx):
             sh = list(sub)
             rng.shuffle(sh)
             listings.append(np.array(sh, dtype=int))
+            if len(sub) <= 3:
+                listings.append(tuple(sub))
             for li, lst in enumerate(listings):
                 r, s = _one(a, m0, [ids[i] for i in sub], lst, ctx, st, "del")
                 any_removed |= r > 0
                 any_survived |= s > 0
-                st.seen("listing", ["sorted", "reversed", "shuffled-array"][li])
+                st.seen("listing", ["sorted", "reversed", "shuffled-array", "tuple"][li])
             st.count("subsets_enumerated")
         st.seen("exhaustive_sizes", n)
         # pop() removes the last atom, pop(i) the i-th
